@@ -1,7 +1,7 @@
 (* Property C08 - merge: every item exactly once, per-input order kept, ends iff all inputs ended. *)
 From Coq Require Import List Arith Bool.
 Import ListNotations.
-Require Import ScanFull InstsFull ObligMZ C08Merge.
+Require Import ScanFull InstsFull ObligMZ C08Merge C11Groups C03Merge C08Eager.
 
 (* For every number of inputs, scripts, history and both strategies there is a split of each input's script into a consumed
    prefix [pre i] and the rest such that (i) the yields with provenance i are exactly the items of [pre i], in order;
@@ -16,6 +16,22 @@ Theorem C08_merge_exactly_once selective scs ops :
     (In ONone rs -> all_ended pre n) /\ (all_ended pre n -> 0 < n -> In ONone rs).
 Proof. exact (C08_merge selective scs ops). Qed.
 Print Assumptions C08_merge_exactly_once.
+
+
+(* "it yields in any poll in which one of the inputs it polls has an item, without waiting for the other inputs": on the observable trace
+   (wake-up traffic stripped) an Item answer is followed - before any other child poll and before any other return - by the return of exactly that
+   item.  eager_b (Proofs/C08Eager.v) is the boolean automaton for this; it accepts the trace of every history, both strategies. *)
+Theorem C08_yields_at_once selective scs ops : let w := merge_world selective scs ops in
+  dropped _ w = false -> eager_b (strip (tr _ w)) = true.
+Proof. exact (C08_eager selective scs ops). Qed.
+Print Assumptions C08_yields_at_once.
+(* an ended input is never polled again (C03) - part of "ends iff all inputs ended" being observable *)
+Theorem C08_no_poll_after_end selective scs ops : let w := merge_world selective scs ops in
+  dropped _ w = false -> exists dead, runE (polls_from 0 (strip (tr _ w))) = Some dead.
+Proof. exact (C03_merge selective scs ops). Qed.
+Print Assumptions C08_no_poll_after_end.
+Example C08_eager_rejects : eager_b [EC 0 (WPar 0); EAns (AItem 5); EC 1 (WPar 0); EAns APend; EEndR (OSome (Some 0) [5])] = false.
+Proof. vm_compute. reflexivity. Qed.
 
 Example C08_empty_ends_at_once : results (tr _ (merge_world true [] [OPollFresh])) = [ONone].
 Proof. vm_compute. reflexivity. Qed.
